@@ -289,6 +289,25 @@ def main(ctx):
                           f'(endpoint under test: {role})',
                           {'module': 'Wire', 'asym': str(asym), 'role': role})
             ctx.count(('asym', role, str(asym)), nontrivial=True)
+    # the shared secret as an mpint: ephemeral keys chosen by the harness so
+    # that it starts with a zero octet (followed by a small / a large one) or
+    # has its high bit set; the exchange hash is recomputed from the bytes on
+    # the wire and the RFC encoding of K, independently of the key-log hook
+    for cls in ('plain', 'highbit', 'zero_low', 'zero_high'):
+        for rep_ in range(1 if quick else 4):
+            r, bad = T.chosen_ecdh_session(cls, ctx.seed * 31 + rep_)
+            if bad and bad[0].startswith('machinery'):
+                raise MachineryError(bad[0])
+            ctx.count(('chosen-ecdh', cls, rep_), nontrivial=True)
+            ok = judge_session(ctx, r, [b'abc', b'defgh'],
+                               f'curve25519 shared secret of class {cls}',
+                               {'module': 'Wire', 'ecdh': cls})
+            if bad:
+                ctx.violation({'module': 'Wire', 'ecdh': cls, 'hash': True},
+                              f'curve25519-sha256 with a shared secret of '
+                              f'class {cls}: ' + '; '.join(bad[:2]),
+                              replay={'kind': 'session', 'what': 'ecdh ' + cls,
+                                      'module': 'Wire', 'ecdh': cls})
     # identification strings: whatever precedes CR LF on the wire is V_C / V_S
     # of the exchange hash, byte for byte (comments, several blanks, a
     # trailing blanks, 245 characters) - both ends and the independent
